@@ -225,7 +225,7 @@ func (c14) Gen(rng *simrt.Rand, tier string, run int) interface{} {
 				h++
 				add(FsOp{K: "create", D: d, N: n, H: h})
 				for k := rng.Intn(3); k > 0; k-- {
-					add(FsOp{K: "append", H: h, ID: nextChunk(), Len: rng.Pick(1, 8, 8, 24, 100)})
+					add(FsOp{K: "append", H: h, ID: nextChunk(), Len: rng.Pick(1, 8, 8, 24, 100, 5000, 9000)})
 				}
 				if rng.Chance(1, 2) {
 					add(FsOp{K: "close", H: h})
